@@ -500,7 +500,7 @@ def post_shard(part, tier, sel=None):
                     h.deregister()
     else:
         orders = (1, 2, 3, float("inf"), 0.5)
-        scales = (1.0, -2.0, 0.5)
+        scales = (1.0, -2.0, 0.5, 3 + 4j)  # scale is documented as float | complex: the norm equals its magnitude
         dims = (None, 0, 1, -1, (0, 1))
         for p in (orders if sel is None else [orders[sel]]):
             for sc in scales:
@@ -518,11 +518,12 @@ def post_shard(part, tier, sel=None):
                             except Exception as ex:
                                 tally.violation(f"exception:norm:depth{nested}:{type(ex).__name__}", case, f"hook on {attr_path(nested)!r} raised {type(ex).__name__}: {ex}", None, repr(ex))
                                 break
-                            w = m.leaf(nested).w.detach().to(torch.float64)
+                            w = m.leaf(nested).w.detach()
+                            w = w.to(torch.complex128) if w.is_complex() else w.to(torch.float64)
                             tally.add("evaluations")
                             for grp in slices(shape, dim):
                                 src = [float(t[i]) for i in grp]
-                                got = [float(w[i]) for i in grp]
+                                got = [complex(w[i]) if w.is_complex() else float(w[i]) for i in grp]
                                 if all(v == 0 for v in src):
                                     if any(v != 0 for v in got):
                                         tally.violation("norm:zero-vector-changed", case, f"zero slice became {got}", src, got)
@@ -534,7 +535,12 @@ def post_shard(part, tier, sel=None):
                                 else:
                                     # direction preserved up to the sign of scale
                                     k = max(range(len(src)), key=lambda j: abs(src[j]))
-                                    if (got[k] > 0) != ((src[k] > 0) == (sc > 0)):
+                                    if isinstance(sc, complex):
+                                        # direction: every entry is the source entry times one common complex factor
+                                        f = got[k] / src[k]
+                                        if any(abs(g - f * x) > 1e-4 * abs(sc) for g, x in zip(got, src)):
+                                            tally.violation("norm:direction", case, f"slice {src} -> {got} is not the source times one factor", None, None)
+                                    elif (got[k] > 0) != ((src[k] > 0) == (sc > 0)):
                                         tally.violation("norm:direction", case, f"slice {src} -> {got} with scale {sc}", None, None)
                             h.deregister()
     tally.sample({"part": part, "tensors": len(tensors)})
